@@ -137,7 +137,7 @@ func TestVerifTags(t *testing.T) {
 			pats = append(pats, p)
 			methods = append(methods, []string{"", "", "http", "none"}[r.Intn(4)])
 		}
-		groupBy := []string{"", "", `^(\w+)/`, `^([a-z]+)`, `^(.*)$`}[r.Intn(5)]
+		groupBy := []string{"", "", `^(\w+)/`, `^([a-z]+)`, `^(.*)$`, `.`, `^[a-z]+`}[r.Intn(7)] // the last two have no capture group (a managed client gets ".")
 		var names []string
 		for j := 0; j < 12; j++ {
 			k := 1 + r.Intn(3)
